@@ -32,3 +32,14 @@ Definition eb2_mismatch (c : eb2_case) : bool :=
                  (match latest_set p with Some r => sort_members (or_members r) | None => [] end) mem)
   | _, _ => true
   end.
+
+(* Cases_C07_pdiff.v: BridgeValidators.PowerDiff + "%.8f" + LegacyNewDecFromStr on the real code vs the model's
+   bit-exact float64 computation, on random member lists and on deltas chosen next to the rounding boundaries
+   (k + 1/2)·10^-8 of the quotient *)
+Record pd_case := { pd_cur : list (Z * Z); pd_lat : list (Z * Z); pd_dec : Z }.
+Definition mk_pd_case (c l : list (Z * Z)) (d : Z) : pd_case := {| pd_cur := c; pd_lat := l; pd_dec := d |}.
+Definition pd_mismatch (c : pd_case) : bool :=
+  match dec_of_fmt8 (power_diff (pd_cur c) (pd_lat c)) with
+  | Some d => negb (d =? pd_dec c)
+  | None => true
+  end.
